@@ -279,6 +279,60 @@ func (p *Path) stubByName(name string, fn *ssa.Function, args []Value) (Value, b
 			return p.newErr(mkStr("os.WriteFile failed"), "os.WriteFile"), true
 		}
 		return nilErr, true
+	case "regexp.Compile":
+		pat := args[0].(*Term)
+		if !pat.IsConst() {
+			p.unsupported("regexp.Compile of a non-constant pattern")
+		}
+		if _, err := regexp.Compile(pat.S); err != nil {
+			return Tuple{Ptr{}, p.newErr(mkStr(err.Error()), "regexp.Compile")}, true
+		}
+		c := new(Value)
+		*c = pat
+		return Tuple{Ptr{c}, nilErr}, true
+	case "os/exec.Command":
+		c := new(Value)
+		*c = zero(fn.Signature.Results().At(0).Type().(*types.Pointer).Elem())
+		p.effects = append(p.effects, "exec.Command")
+		p.effectArgs = append(p.effectArgs, []*Term{strArg(args[0])})
+		p.effectFail = append(p.effectFail, tFalse)
+		return Ptr{c}, true
+	case "(*os/exec.Cmd).Output":
+		fail := p.freshVar("command_fails", SBool)
+		p.registerNondet(fmt.Sprintf("env:exec.Output#%d", p.fresh), fail)
+		if p.branch(fail, "command-fails") {
+			return Tuple{BytesOf{s: mkStr(""), nilS: true}, p.newErr(mkStr("exit status 1"), "exec")}, true
+		}
+		out := p.cmdOutput
+		if out == nil {
+			out = p.freshVar("command_output", SStr)
+		}
+		return Tuple{BytesOf{s: out}, nilErr}, true
+	case "os.UserHomeDir":
+		return Tuple{p.freshVar("home", SStr), nilErr}, true
+	case "path/filepath.Join":
+		sl, ok := args[0].(Slice)
+		if !ok {
+			return mkStr(""), true
+		}
+		var parts []*Term
+		for i, x := range sl.data {
+			if i > 0 {
+				parts = append(parts, mkStr("/"))
+			}
+			parts = append(parts, x.(*Term))
+		}
+		return mkConcat(parts...), true // approximation: no cleaning (only used to set a working directory)
+	case "strings.TrimSpace":
+		if r, ok := p.trimSpace(args[0].(*Term)); ok {
+			return r, true
+		}
+		return nil, false
+	case "strings.Split":
+		if r, ok := p.splitString(args[0].(*Term), args[1].(*Term)); ok {
+			return r, true
+		}
+		p.unsupported("strings.Split of a string whose fields are not known to be free of the separator")
 	case "regexp.MustCompile":
 		pat := args[0].(*Term)
 		if !pat.IsConst() {
@@ -303,6 +357,9 @@ func (p *Path) stubByName(name string, fn *ssa.Function, args []Value) (Value, b
 				return mkBool(re.MatchString(str.S)), true
 			}
 			return mkStr(re.FindString(str.S)), true
+		}
+		if method == "MatchString" && (pat == "" || pat == ".*" || pat == "^.*" || pat == "(?s).*") {
+			return tTrue, true // an unanchored pattern that matches the empty string matches everything
 		}
 		uf := registerRxMethod(method, pat, re)
 		if method == "MatchString" {
@@ -345,6 +402,34 @@ func (p *Path) stubByName(name string, fn *ssa.Function, args []Value) (Value, b
 		return itoa(args[0].(*Term)), true
 	case "strings.Contains":
 		return mkContains(args[0].(*Term), args[1].(*Term)), true
+	case "strings.ContainsAny":
+		str, chars := args[0].(*Term), args[1].(*Term)
+		if chars.IsConst() {
+			if str.IsConst() {
+				return mkBool(strings.ContainsAny(str.S, chars.S)), true
+			}
+			ascii := true
+			var set [256]bool
+			for i := 0; i < len(chars.S); i++ {
+				if chars.S[i] >= 0x80 {
+					ascii = false
+				}
+				set[chars.S[i]] = true
+			}
+			if ascii && chars.S != "" {
+				return mkInRe(str, reSeq(reAll(), reFromSet(set, false), reAll())), true
+			}
+			if chars.S == "" {
+				return tFalse, true
+			}
+		}
+		return nil, false
+	case "strings.ContainsRune":
+		str, r := args[0].(*Term), args[1].(*Term)
+		if r.IsConst() && r.Int64() < 0x80 && r.Int64() >= 0 {
+			return mkContains(str, mkStr(string(rune(r.Int64())))), true
+		}
+		return nil, false
 	case "strings.HasPrefix":
 		return mkPrefixOf(args[1].(*Term), args[0].(*Term)), true
 	case "strings.HasSuffix":
@@ -1126,4 +1211,93 @@ func rxMethodNative(name string) func(args []string) (string, bool) {
 		}
 		return "s:" + m.re.FindString(s), true
 	}
+}
+
+// ---- strings.TrimSpace / strings.Split on structured symbolic strings
+// Exact when the string is a concatenation of constants and variables known (by an assumption
+// in the path condition) to be non-empty and free of white space.
+
+var reNoSpaceField = mustRe(`[^ \n\t\r]+`)
+
+func (p *Path) knownField(t *Term) bool {
+	return !t.IsConst() && p.pcSet[mkInRe(t, reNoSpaceField).id]
+}
+
+func isSpaceByte(b byte) bool { return b == ' ' || b == '\n' || b == '\t' || b == '\r' || b == '\v' || b == '\f' }
+
+func (p *Path) trimSpace(s *Term) (*Term, bool) {
+	if s.IsConst() {
+		return mkStr(strings.TrimSpace(s.S)), true
+	}
+	parts := append([]*Term{}, concatParts(s)...)
+	for len(parts) > 0 {
+		l := parts[len(parts)-1]
+		if !l.IsConst() {
+			break
+		}
+		t := strings.TrimRight(l.S, " \n\t\r\v\f")
+		if t == "" {
+			parts = parts[:len(parts)-1]
+			continue
+		}
+		parts[len(parts)-1] = mkStr(t)
+		break
+	}
+	for len(parts) > 0 {
+		f := parts[0]
+		if !f.IsConst() {
+			break
+		}
+		t := strings.TrimLeft(f.S, " \n\t\r\v\f")
+		if t == "" {
+			parts = parts[1:]
+			continue
+		}
+		parts[0] = mkStr(t)
+		break
+	}
+	if len(parts) == 0 {
+		return mkStr(""), true
+	}
+	first, last := parts[0], parts[len(parts)-1]
+	if !(first.IsConst() || p.knownField(first)) || !(last.IsConst() || p.knownField(last)) {
+		return nil, false
+	}
+	return mkConcat(parts...), true
+}
+
+func (p *Path) splitString(s, sep *Term) (Value, bool) {
+	if !sep.IsConst() || len(sep.S) != 1 || !isSpaceByte(sep.S[0]) {
+		if s.IsConst() && sep.IsConst() {
+			var out []Value
+			for _, x := range strings.Split(s.S, sep.S) {
+				out = append(out, mkStr(x))
+			}
+			return Slice{data: out}, true
+		}
+		return nil, false
+	}
+	var fields []Value
+	var cur []*Term
+	for _, part := range concatParts(s) {
+		if part.IsConst() {
+			segs := strings.Split(part.S, sep.S)
+			for i, seg := range segs {
+				if i > 0 {
+					fields = append(fields, mkConcat(cur...))
+					cur = nil
+				}
+				if seg != "" {
+					cur = append(cur, mkStr(seg))
+				}
+			}
+			continue
+		}
+		if !p.knownField(part) {
+			return nil, false
+		}
+		cur = append(cur, part)
+	}
+	fields = append(fields, mkConcat(cur...))
+	return Slice{data: fields}, true
 }
